@@ -306,7 +306,12 @@ def point_rows(prog, sh=None, thorough=False):
                         if C.call("cmp", regs[op[1]], regs[op[2]]) == 0:
                             wrong.append("%s, %s: cmp says two different points are equal" % (C.name, desc))
                     elif kind == "xy":
+                        before = dict((oid, list(o.cells)) for oid, o in C.m.objs.items() if o.kind == "heap" and not o.freed)
                         got = C.xy(regs[op[1]])
+                        touched = [C.m.objs[oid].name for oid, cells in before.items()
+                                   if oid in C.m.objs and not C.m.objs[oid].freed and C.m.objs[oid].cells != cells]
+                        if touched and C.name == "Ed25519":       # (Ed448 keeps scratch space inside the point object)
+                            wrong.append("%s, %s: get_xy modifies the point it reads (%s)" % (C.name, desc, touched[0]))
                         if got != op[2]:
                             wrong.append("%s, %s: get_xy returns %s, expected (%s.., %s..)" % (
                                 C.name, desc, got if got[0] == "code" else "(%s.., %s..)" % (hex(got[0])[:10], hex(got[1])[:10]),
